@@ -63,6 +63,16 @@ MkList(f) == [k \in DOMAIN f |-> MkUpd(k, f[k])]
 
 Pairs(T) == {p \in (0 .. T) \X (0 .. T) : p[1] <= p[2]}
 
+\* The element's own time: ts = its Timestamp, com = its Committed; -1 = not set (zero time / nil), otherwise
+\* a symbolic time 0 .. T + 1 on the same axis as the update stamps and the query times (so it lies before,
+\* at, between or after the stamps, and every query time 0 .. T is before, at or after it).  Committed is
+\* nil, earlier than, equal to or later than the Timestamp.  Neither the Model nor any Judge takes it as an
+\* argument: the property does not mention the element's own time, so no answer may depend on it.
+OwnChoices(T) ==
+  {o \in [ts : -1 .. T + 1, com : -1 .. T + 1] :
+       o.com = -1 \/ o.ts = -1 \/ o.com \in {o.ts - 1, o.ts, o.ts + 1}}
+NoOwn == [ts |-> -1, com |-> -1]
+
 -----------------------------------------------------------------------------
 (* MODEL - ApplyUpdatesUpTo (way.go:118-149, relation.go:142-176)          *)
 
@@ -273,9 +283,14 @@ KFExact == (Done /\ kind = "way" /\ FullyAnnotated(ch)) =>
 
 -----------------------------------------------------------------------------
 (* INPUT SPACE as sets (used by UpdatesGen)                                *)
-Case(k, c, l, p, T) == [kind |-> k, children |-> c, updates |-> l, t1 |-> p[1], t2 |-> p[2], tmax |-> T]
-\* every stored list of exactly l updates over n children and times 1..T, every t1 <= t2
-CasesExact(k, n, l, T, un) ==
-  {Case(k, ChildrenOf(k, n, un), MkList(f), p, T) : f \in [1 .. l -> Choice(k, n, T)], p \in Pairs(T)}
-CasesUpTo(k, n, L, T, un) == UNION {CasesExact(k, n, l, T, un) : l \in 0 .. L}
+Case(k, c, l, p, T, o) == [kind |-> k, children |-> c, updates |-> l, t1 |-> p[1], t2 |-> p[2], tmax |-> T,
+                           ts |-> o.ts, com |-> o.com]
+\* every stored list of exactly l updates over n children and times 1..T, every t1 <= t2; Own(T) yields the
+\* element's own time of one case (a fixed value, or a value drawn by TLC per case)
+CasesExact(k, n, l, T, un, Own(_)) ==
+  {Case(k, ChildrenOf(k, n, un), MkList(f), p, T, Own(T)) : f \in [1 .. l -> Choice(k, n, T)], p \in Pairs(T)}
+\* the same with every own time
+CasesExactOwn(k, n, l, T, un) ==
+  {Case(k, ChildrenOf(k, n, un), MkList(f), p, T, o) :
+      f \in [1 .. l -> Choice(k, n, T)], p \in Pairs(T), o \in OwnChoices(T)}
 =============================================================================
